@@ -144,6 +144,23 @@ theorem graph_height_list (n : Nat) (adj : Nat → Nat → Bool) :
     (graphSTab n adj).heightFuncList = .ok ((List.range n).map fun (k : Nat) => Int.ofNat (cutBlock n k adj).rank) :=
   graph_heightFuncList n adj
 
+/-- **the solver's emitter count is the maximum of the target's own height list** (every target, every size): `determine_n_emitters`
+    evaluates `height_func_list` on `rref(target)`; by gauge independence that is the height list of the target as given, i.e.
+    (`height_is_entropy_value`) the list of the entanglement entropies of its cuts -/
+theorem solver_allocates_max_entropy (target : STab) (s : Solver.St) (h : Solver.solve target = .ok s) :
+    ∃ h0 hs, target.heightFuncList = .ok (h0 :: hs) ∧ s.ne = (hs.foldl max h0).toNat := by
+  have hd := Solver.solve_emitter_count target s h
+  unfold Solver.determineNEmitters at hd
+  split at hd
+  · cases hd
+  · next t1 brs hr =>
+    split at hd
+    · cases hd
+    · cases hd
+    · next h0 hs hl =>
+      injection hd with hd
+      exact ⟨h0, hs, heightFuncList_rref target t1 brs hr _ hl, hd.symm⟩
+
 /-- **gauge independence, strongest form**: two tableaux on the same number of qubits whose rows generate the same signed group
     get the same height list (nothing is assumed about the generators) -/
 theorem height_gauge_independent (t t' : STab) (l l' : List Int) (hn : t.n = t'.n) (hs : ∀ p, t.Spn p ↔ t'.Spn p)
@@ -229,6 +246,10 @@ example : (match lin3.rref with | .ok _ => true | .error _ => false) = true := b
     (leading sites 0, 0 with different Paulis there), and the product of both generators `YY` … is not trivial on site 0 -/
 def cl2 : STab :=
   STab.ofRows 2 #[PRow.ofArrays #[true,false] #[false,true] false false, PRow.ofArrays #[false,true] #[true,false] false false]
+
+/-- hypothesis of `solver_allocates_max_entropy` (and of the two solver theorems above): the solver returns on the 2-qubit cluster
+    state, with one emitter (= the entropy of its only non-trivial cut) -/
+example : (match Solver.solve cl2 with | .ok s => s.ne == 1 | .error _ => false) = true := by decide +kernel
 
 example : Echelon cl2 (fun _ => 0) := by
   constructor
